@@ -617,6 +617,19 @@ func run(c *hx.Ctx) {
 	} {
 		doCase(cs)
 	}
+	// one prune call with a long backlog: a line of 230 blocks (trivial-target regimes), nothing pruned before,
+	// prune far above 144 blocks at once, a second call (must change nothing), then pruned-block re-submission
+	for regime := 0; regime < 3; regime++ {
+		line := make([]int, 230)
+		all := make([]int, 230)
+		for i := range line {
+			line[i], all[i] = i, i+1
+		}
+		heights := []uint64{225, 231, ^uint64(0)}
+		doCase(mgrsim.Case{Seed: uint64(21 + regime), Regime: regime, Opts: chaingen.GenOpts{Shape: line}, Plan: []mgrsim.Op{
+			{Kind: "add", Nodes: all}, {Kind: "prune", Height: heights[regime]}, {Kind: "prune", Height: heights[regime]}, {Kind: "add", Nodes: []int{3, 4}}, {Kind: "prune", Height: 10}}})
+		res.Count("long-line(230-blocks)-pruned-in-one-call")
+	}
 	n := c.Scale(200, 5000)
 	for i := 0; i < n; i++ {
 		r := c.R.Fork()
